@@ -6,6 +6,7 @@
 (*  {"e":"Enter","mode":m,"zneg":0|1,"q":..,"edl":..,"ek":..,"ebb1":..,"ebb2":..,"started":0|1} *)
 (*  {"e":"Init","e0":..,"ebb1":..,"ebb2":..,"imax":..}   first call only       *)
 (*  {"e":"T1","e1":..,"k":..,"acc":0|1}  {"e":"T2","e2":..,"acc":0|1}          *)
+(*  {"e":"S2","ks":..,"kf":..}  grid range of the second-lepton majorant scan   *)
 (*  {"e":"Pair","e1":..,"e2":..}  {"e":"T3","acc":0|1}  {"e":"T4","acc":0|1}   *)
 (*  {"e":"Part","c":"e-"|"e+"|"g"}   particles emitted by the sampler itself    *)
 (*  {"e":"Leave"}                                                              *)
@@ -72,6 +73,9 @@ TT1 ==
   /\ Log[l].k >= k' - 1 /\ Log[l].k <= k' + 1     \* e1 within 0.01 eV of a bin edge may round either way
   /\ UNCHANGED parts
 
+\* the grid range of the majorant scan, as computed by the code, is the one the model prescribes
+TS2 == IsEvent("S2") /\ Scan2(Log[l].ks, Log[l].kf) /\ UNCHANGED parts
+
 TT2 == IsEvent("T2") /\ Trial2(Log[l].e2, Log[l].acc = 1) /\ UNCHANGED parts
 
 TPair ==
@@ -103,7 +107,7 @@ TIdle ==
   /\ stage = "done" /\ stage' = "idle"
   /\ UNCHANGED <<mode, zneg, e0, ebb1, ebb2, imax, e1, e2, k, np, species, started, l, parts>>
 
-TNext == TReset \/ TEnter \/ TInitSpectrum \/ TResume \/ TT1 \/ TT2 \/ TPair \/ TT3 \/ TT4 \/ TPart \/ TLeave \/ TIdle
+TNext == TReset \/ TEnter \/ TInitSpectrum \/ TResume \/ TT1 \/ TS2 \/ TT2 \/ TPair \/ TT3 \/ TT4 \/ TPart \/ TLeave \/ TIdle
 
 TraceSpec == TInit /\ [][TNext]_tvars
 
